@@ -64,7 +64,7 @@ def main():
         results.append(r)
         log(f"[{pid}] group {g.name}: {len(r['harnesses'])} harnesses, wall {r['wall_s']} s, rc {r['rc']}")
     known = R.load_known()
-    violations, known_hits, inconclusive = [], [], []
+    violations, known_hits, inconclusive, undecided = [], [], [], []
     harness_rows = {}
     post = spec.get("classify")
     for r in results:
@@ -79,7 +79,13 @@ def main():
             row["group"] = g.name
             harness_rows[h] = row
             if row["verdict"] == "inconclusive":
-                inconclusive.append(f"{short(h)}: {row['why']}")
+                if tier == "thorough" and row.get("resource"):
+                    # thorough tier: the per-harness time/memory cap is part of the stated bound.  A query that runs into
+                    # it decided nothing; it is reported as not explored (never as a pass) and does not change the exit code.
+                    row["verdict"] = "undecided"
+                    undecided.append(f"{short(h)}: {row['why']}")
+                else:
+                    inconclusive.append(f"{short(h)}: {row['why']}")
     # new failures -> replay
     to_replay = [(h, row) for h, row in harness_rows.items() if row["new_keys"]]
     for h, row in harness_rows.items():
@@ -146,10 +152,13 @@ def main():
             print(f"  failing obligation: {short(v['harness'])}:{k}")
     for i in inconclusive:
         print(f"INCONCLUSIVE property={pid} {i}")
+    for u in undecided:
+        print(f"UNDECIDED property={pid} {u} -- outside what this run explored")
+    ctx.setdefault("coverage_extra", {})["queries_undecided_within_budget"] = undecided
     write_evidence(pid, spec, tier, seed, t0, results, harness_rows, violations, known_hits, inconclusive, ctx)
     n_ok = sum(1 for r in harness_rows.values() if r["verdict"] == "pass")
     print(f"[{pid}] tier={tier} harnesses={len(harness_rows)} pass={n_ok} known-finding-hits={len(known_hits)} "
-          f"violations={len(violations)} inconclusive={len(inconclusive)} wall={time.time()-t0:.0f}s")
+          f"violations={len(violations)} inconclusive={len(inconclusive)} undecided={len(undecided)} wall={time.time()-t0:.0f}s")
     if violations:
         return 1
     if inconclusive:
@@ -218,6 +227,7 @@ def classify(pid, h, info, known):
         row["verdict"] = "fail" if row["new_keys"] else "known"
         return row
     row["verdict"] = "inconclusive"
+    row["resource"] = True
     et = info.get("err", {})
     row["why"] = f"status {st} without failed checks ({et.get('error_type','?')}/{et.get('exit_status','?')}): timeout, out of memory or solver error"
     return row
